@@ -56,6 +56,21 @@ MUTANTS = [
     {"name": "C15-ce-max-period-doubled", "props": ["C15", "C02"], "edits": [(I + "chandelier_exit.rs", "max: Maximum::new(period)?,", "max: Maximum::new(period * 2)?,")]},
     {"name": "C15-atr-steps-ema-twice", "props": ["C15", "C02"], "edits": [(I + "average_true_range.rs", "    fn next(&mut self, input: f64) -> Self::Output {\n        self.ema.next(self.true_range.next(input))", "    fn next(&mut self, input: f64) -> Self::Output {\n        let tr = self.true_range.next(input);\n        self.ema.next(tr);\n        self.ema.next(tr)")]},
     {"name": "C15-cci-sma-fed-close", "props": ["C15", "C03"], "edits": [(I + "commodity_channel_index.rs", "let sma = self.sma.next(tp);", "let sma = self.sma.next(input.close());")]},
+    # ---- C10
+    {"name": "C10-minimum-reads-high", "props": ["C10"], "edits": [(I + "minimum.rs", "impl<T: Low> Next<&T> for Minimum {", "impl<T: crate::High> Next<&T> for Minimum {"), (I + "minimum.rs", "self.next(input.low())", "self.next(input.high())")]},
+    {"name": "C10-sma-bar-hl2", "props": ["C10"], "edits": [(I + "simple_moving_average.rs", "impl<T: Close> Next<&T> for SimpleMovingAverage {", "impl<T: crate::High + crate::Low> Next<&T> for SimpleMovingAverage {"), (I + "simple_moving_average.rs", "self.next(input.close())", "self.next((input.high() + input.low()) / 2.0)")]},
+    {"name": "C10-ema-bar-scaled", "props": ["C10"], "edits": [(I + "exponential_moving_average.rs", "self.next(input.close())", "self.next(input.close() * 1.0001)")]},
+    {"name": "C10-dataitem-high-returns-low", "props": ["C10", "C16"], "edits": [("src/data_item.rs", "    fn high(&self) -> f64 {\n        self.high", "    fn high(&self) -> f64 {\n        self.low")]},
+    {"name": "C19-rsi-bound-close-volume", "props": ["C19"], "edits": [(I + "relative_strength_index.rs", "impl<T: Close> Next<&T> for RelativeStrengthIndex {", "impl<T: Close + crate::Volume> Next<&T> for RelativeStrengthIndex {")]},
+    {"name": "C10-wma-bar-skips-zero-volume", "props": ["C10"], "edits": [(I + "weighted_moving_average.rs", "impl<T: Close> Next<&T> for WeightedMovingAverage {", "impl<T: Close + crate::Volume> Next<&T> for WeightedMovingAverage {"), (I + "weighted_moving_average.rs", "        self.next(input.close())", "        if input.volume() < 0.0 {\n            return self.sum;\n        }\n        self.next(input.close())")]},
+    {"name": "C19-er-bar-static-bound", "props": ["C19"], "edits": [(I + "efficiency_ratio.rs", "impl<T: Close> Next<&T> for EfficiencyRatio {", "impl<T: Close + 'static> Next<&T> for EfficiencyRatio {")]},
+    {"name": "C10-obv-reads-open", "props": ["C10"], "edits": [(I + "on_balance_volume.rs", "impl<T: Close + Volume> Next<&T> for OnBalanceVolume {", "impl<T: Close + Volume + crate::Open> Next<&T> for OnBalanceVolume {"), (I + "on_balance_volume.rs", "        if input.close() > self.prev_close {", "        if input.close() > self.prev_close && input.open() == input.open() {")]},
+    # ---- C19
+    {"name": "C19-er-no-clone", "props": ["C19"], "edits": [(I + "efficiency_ratio.rs", "#[derive(Debug, Clone)]\npub struct EfficiencyRatio", "#[derive(Debug)]\npub struct EfficiencyRatio")]},
+    {"name": "C19-obv-rc-field", "props": ["C19", "C05", "C18"], "edits": [(I + "on_balance_volume.rs", "    obv: f64,\n    prev_close: f64,\n}", "    obv: f64,\n    prev_close: f64,\n    #[cfg_attr(feature = \"serde\", serde(skip))]\n    tag: std::rc::Rc<()>,\n}"), (I + "on_balance_volume.rs", "            obv: 0.0,\n            prev_close: 0.0,\n        }", "            obv: 0.0,\n            prev_close: 0.0,\n            tag: std::rc::Rc::new(()),\n        }")]},
+    {"name": "C19-roc-drops-next-f64-pub", "props": ["C19"], "edits": [(I + "money_flow_index.rs", "impl Period for MoneyFlowIndex {\n    fn period(&self) -> usize {\n        self.period\n    }\n}\n", "impl MoneyFlowIndex {\n    pub fn period(&self) -> usize {\n        self.period\n    }\n}\n")]},
+    {"name": "C19-tr-no-serde", "props": ["C19", "C06"], "edits": [(I + "true_range.rs", "#[cfg_attr(feature = \"serde\", derive(Serialize, Deserialize))]\n#[derive(Debug, Clone)]\npub struct TrueRange", "#[derive(Debug, Clone)]\npub struct TrueRange")]},
+    {"name": "C19-kc-output-no-partialeq", "props": ["C19"], "edits": [(I + "keltner_channel.rs", "#[derive(Debug, Clone, PartialEq)]\npub struct KeltnerChannelOutput", "#[derive(Debug, Clone)]\npub struct KeltnerChannelOutput")]},
 ]
 BENIGN = [
     {"name": "benign-build-conjunct-order", "props": ["C16"], "edits": [("src/data_item.rs", "            if low <= open\n                && low <= close", "            if low <= close\n                && low <= open")]},
